@@ -223,6 +223,16 @@ func checkC19(c C19Case) error {
 				strOK = false
 			}
 		}
+		allNum := len(elems) > 0
+		for _, e := range elems {
+			if _, isStr := e.(string); isStr {
+				allNum = false
+			}
+		}
+		if allNum && !numOK {
+			// numbers are ordered by value, whatever Go type carries them
+			return fmt.Errorf("x|sort on the numbers %s is not in ascending numeric order: %s", PrintE2(c.X), showJ(got))
+		}
 		if !numOK && !strOK {
 			return fmt.Errorf("x|sort on %s is ordered neither numerically nor by printed form: %s", PrintE2(c.X), showJ(got))
 		}
